@@ -11,6 +11,15 @@ compile_error!("enable exactly one of the features `ark` / `min`");
 
 mod ad;
 mod c04;
+mod c05;
+mod c06;
+mod c07;
+mod c08;
+mod encp;
+mod fld;
+mod c09;
+mod c10;
+mod c11;
 mod grp;
 mod model;
 mod mon;
@@ -72,7 +81,17 @@ fn main() {
     mon::silence_panics();
     let mut rec = mon::Rec::new();
     match cmd.as_str() {
+        "C01" => encp::run_c01(&ctx, &mut rec),
+        "C02" => encp::run_c02(&ctx, &mut rec),
+        "C03" => encp::run_c03(&ctx, &mut rec),
         "C04" => c04::run(&ctx, &mut rec),
+        "C05" => c05::run(&ctx, &mut rec),
+        "C06" => c06::run(&ctx, &mut rec),
+        "C07" => c07::run(&ctx, &mut rec),
+        "C08" => c08::run(&ctx, &mut rec),
+        "C09" => c09::run(&ctx, &mut rec),
+        "C10" => c10::run(&ctx, &mut rec),
+        "C11" => c11::run(&ctx, &mut rec),
         other => {
             eprintln!("unknown command {other}");
             std::process::exit(2);
